@@ -41,6 +41,34 @@ def prove_nonneg(E, constraints, maxlam=2):
     return False
 
 
+def infeasible(constraints, maxlam=2):
+    """True when a non-negative combination of the constraints (each >= 0) is a negative constant: they cannot all hold"""
+    cons = []
+    for k in constraints:
+        cv = sym.const_value(k)
+        if cv is not None:
+            if cv < 0:
+                return True
+            continue
+        if k not in cons:
+            cons.append(k)
+    cons = cons[:10]
+    for top in (1, maxlam):
+        for lam in itertools.product(range(top + 1), repeat=len(cons)):
+            if not any(lam):
+                continue
+            t = ZERO
+            for l, k in zip(lam, cons):
+                if l:
+                    t = sym.add(t, sym.mul(I(l), k))
+            cv = sym.const_value(t)
+            if cv is not None and cv < 0:
+                return True
+        if len(cons) > 8:
+            break
+    return False
+
+
 def loop_constraints(loops):
     """range facts of canonical loops with step +1: var - lo >= 0, hi - 1 - var >= 0 (or hi - var >= 0 for <=)"""
     out = []
